@@ -127,4 +127,12 @@ PROPS = {
         ],
         "assumptions": ["the aggregation stages around the $match fragment (projection, lookups, unwinds) are not modelled: C14 covers typing and the has-filter fragment only", "has() keys in a mark namespace ($m.field) are outside the generated domain: convertPath drops the namespace"],
     },
+    "C07": {
+        "trusted_base": [
+            "Model/Pipeline.v is a hand-written abstraction of engine/pipeline/pipes.go:Start and of the processors' read-one / write-results / close-after-input shape: channel contents are rows, a step's effect per row is an upper bound on what it writes; graph-store scans and lookups are part of the step that calls them; the Go scheduler is any interleaving of enabled steps; a blocked channel send is a disabled step",
+            "the fan-out model mirrors engine/core/processors.go:both.Process after the repair (feeder goroutine, first output forwarded, second held) and, with concurrent=false, the pinned design",
+            "correspondence is by observable behaviour only (stream closes, row count, goroutines and temporary entries afterwards): the real runs sample schedules, the theorems cover all of them for the model",
+        ],
+        "assumptions": ["every processor other than both/bothE has the linear read-write-close shape (aggregate's internal fan-out consumes concurrently and is treated as one step writing at end of input)", "kvgraph scans stop on context cancellation (observed, not modelled beyond the cancel step)", "mark/jump cycles are excluded here (C12)"],
+    },
 }
